@@ -4,6 +4,7 @@
 set -e
 cd "$(dirname "$0")"
 export GOFLAGS=-mod=mod GOPROXY=off GOSUMDB=off GOTOOLCHAIN=local
+export GOCACHE="$(pwd)/work/gocache"
 mkdir -p work/bin evidence replays lean/RulesModel/Generated
 (cd extract && go build -o ../work/bin/extract .)
 REPO="${VERIF_REPO:-/repo}"
